@@ -78,6 +78,9 @@ def run_pair(job):
             fv = fakevcs.FakeVCS(os.path.join(d, "fake"))
             fv.set(tags=[], status="", remote="", branches="")
             env = fv.env()
+            if seed % 3 == 1:
+                # one configured file is untracked and covered by .gitignore (a generated file): the status does not list it, staging it with --update is a silent no-op
+                fv.put("ignored", sorted(lay.files)[0] + "\n")
             if seed % 2 == 0 and not legacy:
                 # a remote that holds a newer version tag which has not been fetched yet (someone released from another clone); fetching is on:
                 # the dry run and the real run - same arguments - must start from the same version
